@@ -266,7 +266,7 @@ fn run_scenario(
     ft: &str,
     limit_s: u64,
 ) -> Result<String, String> {
-    let exe = std::env::current_exe().unwrap();
+    let exe = crate::run::child_exe();
     let out = Command::new("timeout")
         .arg(format!("{limit_s}"))
         .arg(exe)
@@ -370,7 +370,7 @@ pub fn replay(case: &Value, verbose: bool) -> Vec<String> {
         // a call that did not return: re-run it in a child process under a time limit
         let path = format!("/tmp/verif-raw-{}.json", std::process::id());
         std::fs::write(&path, serde_json::to_string(case).unwrap()).unwrap();
-        let exe = std::env::current_exe().unwrap();
+        let exe = crate::run::child_exe();
         let limit = crate::watch::LIMIT_MS / 1000;
         let out = Command::new("timeout").arg(limit.to_string()).arg(exe).args(["--raw-call", &path]).output();
         let _ = std::fs::remove_file(&path);
